@@ -115,6 +115,15 @@ func vfGenRemovePayload(rt *rapid.T, g *vfVecGen) []float32 {
 	}
 }
 
+// vfGenK draws a result limit: mostly around the number of live vectors, sometimes far outside
+// ("every k in Z": a limit is not a size to allocate).
+func vfGenK(rt *rapid.T, lo, nLive, slack int) int {
+	if rapid.IntRange(0, 19).Draw(rt, "k_extreme") == 0 {
+		return rapid.SampledFrom([]int{math.MaxInt32, math.MaxInt64, math.MinInt64, math.MinInt32, 1 << 40, -(1 << 40), 1000000}).Draw(rt, "k_huge")
+	}
+	return rapid.IntRange(lo, nLive+slack).Draw(rt, "k")
+}
+
 // vfGenID draws a fresh non-zero id: mostly small, sometimes huge (container boundaries).
 func vfGenFreshID(rt *rapid.T, used map[uint32]bool) uint32 {
 	for tries := 0; ; tries++ {
